@@ -33,7 +33,6 @@ Ltac brk2 :=
   repeat (try unfold uq, dq; cbn; match goal with
          | |- context[if ?b then _ else _] =>
              match b with context[?v] => is_var v; match type of v with bool => destruct v end end
-         | |- context[B ?v] => is_var v; destruct v
          | |- context[match ?p with PNone => _ | PHs => _ | PConn => _ end] => is_var p; destruct p
          | |- context[match ?x with CNone => _ | CValid _ => _ | CSkip => _ end] => is_var x; destruct x
          | |- context[match ?l with [] => _ | _ :: _ => _ end] => is_var l; destruct l
@@ -47,7 +46,13 @@ Ltac open_row :=
   [ destruct W as (-> & -> & -> & -> & -> & -> & -> & -> & -> & -> & -> & -> & -> & -> & ->)
   | destruct W as (-> & -> & -> & -> & -> & -> & -> & -> & -> & -> & -> & ->)
   | destruct W as [-> W2]; destruct usn, uu; cbn in W2; try discriminate W2; clear W2 ].
-Ltac close_row := unfold row_wf, res_free; brk2; try unfold uq, dq; cbn; repeat split; try reflexivity.
+(* flags the update does not touch reduce by computation (0 + B b = B b): only split on a flag when reflexivity fails *)
+Ltac refl_or_split :=
+  first [ reflexivity
+        | progress (unfold contrib, uq, dq, is_conn, is_hs; cbn); refl_or_split
+        | match goal with |- context[andb ?v _] => is_var v; destruct v; refl_or_split end
+        | match goal with |- context[B ?v] => is_var v; destruct v; refl_or_split end ].
+Ltac close_row := unfold row_wf, res_free; brk2; try unfold uq, dq; cbn; repeat split; refl_or_split.
 Ltac good_tac := unfold good; open_row; close_row.
 
 Lemma good_tc_add : forall k, good (tc_add k).
